@@ -189,7 +189,7 @@ pub fn case_strategy() -> impl Strategy<Value = CardCase> {
         prop_oneof![3 => Just(vec![]), 2 => proptest::collection::vec(sub.clone(), 0..=4)],
         prop_oneof![4 => Just(None), 1 => proptest::collection::vec(sub, 0..=3).prop_map(Some)],
         any::<bool>(),
-        0usize..=5,
+        prop_oneof![30 => 0usize..=5, 1 => proptest::sample::select(vec![254usize, 255, 256, 257, 300, 1000])],
         prop::bool::weighted(0.05),
         prop_oneof![12 => Just(None), 1 => Just(Some(0x6cu8)), 1 => any::<u8>().prop_map(Some)],
     )
@@ -236,6 +236,9 @@ pub fn run(tier: Tier) -> i32 {
             if c.abort.is_some() {
                 st.class("abort");
             }
+            if c.intermediates >= 254 {
+                st.class("hundreds-of-intermediate-statuses");
+            }
             if st.samples.len() < 1 && long_uid && c.abort.is_none() {
                 st.sample(|| serde_json::to_value(c).unwrap());
             }
@@ -246,7 +249,7 @@ pub fn run(tier: Tier) -> i32 {
     stats.exhaustive_parts = vec!["all 256 abort codes".into()];
     ctx.finish(
         stats,
-        "proptest status-information replies built by the reference encoder: UID absent / 0..20 bytes (biased to <= 7 bytes, leading zero bytes, 000000 after the cut, zero-heavy alphabets, runs of 5..7 zero digits planted at every digit offset around and inside the 14-digit tail, the captured UIDs), application entries directly (tag 60) and in the 62 container with/without application id, unrelated TLV fields, 0..5 preceding intermediate statuses, aborts (all 256 codes once). Oracle: first direct entry has an application id => Bank; no entries and a UID => MembershipCard(canon(uid)); neither => error; never Membership when any listed entry carries an application id, never Bank when none does, membership id always canon(uid); same result on a second presentation and under changed intermediates / unrelated fields; abort 0x6c => NoCardPresented, other aborts => another error. non-trivial = UID longer than 7 bytes, or both a UID and an application list; distinct by case",
+        "proptest status-information replies built by the reference encoder: UID absent / 0..20 bytes (biased to <= 7 bytes, leading zero bytes, 000000 after the cut, zero-heavy alphabets, runs of 5..7 zero digits planted at every digit offset around and inside the 14-digit tail, the captured UIDs), application entries directly (tag 60) and in the 62 container with/without application id, unrelated TLV fields, 0..5 (occasionally 254 / 255 / 256 / 257 / 300 / 1000) preceding intermediate statuses, aborts (all 256 codes once). Oracle: first direct entry has an application id => Bank; no entries and a UID => MembershipCard(canon(uid)); neither => error; never Membership when any listed entry carries an application id, never Bank when none does, membership id always canon(uid); same result on a second presentation and under changed intermediates / unrelated fields; abort 0x6c => NoCardPresented, other aborts => another error. non-trivial = UID longer than 7 bytes, or both a UID and an application list; distinct by case",
         &["for entries without application id in first position the statement leaves the outcome open (never-clauses only)", "canon() is my own transcription of the canonical form in the property"],
         false,
     )
